@@ -1,11 +1,15 @@
 #!/bin/sh
 # confirm_seed.sh <worktree> <change_dir>: demo fails with the change, suite passes, demo passes without
 WT=$1; CH=$2
+T=$(mktemp -d -p ${TMPDIR:-/tmp} confirm_XXXXXX)
 cd $WT || exit 9
 git checkout -q -- unified_planning
-git apply $CH/patch.diff || { echo "APPLY-FAILED"; exit 9; }
-PYTHONPATH=$WT /venv/bin/python $CH/demo.py > /tmp/demo_with.out 2>&1; W=$?
-/venv/bin/python -m pytest -q -rf -p no:cacheprovider --timeout=900 -n 12 > /tmp/suite_full.out 2>&1; tail -1 /tmp/suite_full.out > /tmp/suite.out; grep "^FAILED\|^ERROR" /tmp/suite_full.out | cut -c1-200 | head -5 >> /tmp/suite.out
+git apply $CH/patch.diff || { echo "$CH APPLY-FAILED"; rm -rf $T; exit 9; }
+PYTHONPATH=$WT /venv/bin/python $CH/demo.py > $T/demo_with.out 2>&1; W=$?
+/venv/bin/python -m pytest -q -rf -p no:cacheprovider --timeout=900 -n 8 > $T/suite_full.out 2>&1
+tail -1 $T/suite_full.out > $T/suite.out
+FAILED=$(grep "^FAILED\|^ERROR" $T/suite_full.out | cut -c1-160 | head -5 | tr '\n' ';')
 git checkout -q -- unified_planning
-PYTHONPATH=$WT /venv/bin/python $CH/demo.py > /tmp/demo_without.out 2>&1; WO=$?
-echo "$CH demo_with_exit=$W demo_without_exit=$WO suite: $(cat /tmp/suite.out)"
+PYTHONPATH=$WT /venv/bin/python $CH/demo.py > $T/demo_without.out 2>&1; WO=$?
+echo "$CH demo_with_exit=$W demo_without_exit=$WO suite: $(cat $T/suite.out) $FAILED"
+rm -rf $T
